@@ -180,7 +180,7 @@ func (vc *VC) fresh(prefix, sort string) string {
 
 func (vc *VC) define(prefix, sort, term string) string {
 	n := vc.freshName(prefix)
-	if sort == "Slice" || strings.HasPrefix(sort, "(Array") {
+	if sort == "Slice" || strings.HasPrefix(sort, "(Array") || strings.Contains(term, "(ite ") {
 		// named by equation rather than by macro, so that the name can occur in quantifier patterns
 		// (solvers expand define-fun before matching and reject if-then-else inside patterns)
 		vc.emit(fmt.Sprintf("(declare-const %s %s)", n, sort))
